@@ -28,8 +28,8 @@ def random_lex(rng):
     maybe("sort", [False])
     maybe("ascii", [False])
     maybe("num.kind", ["native"], 0.4)
-    maybe("num.scale", ["expE", "expe", "plus", "tz"], 0.5)
-    maybe("num.limit", ["expE", "expe", "plus", "tz"], 0.5)
+    maybe("num.scale", ["expE", "expe", "plus", "tz", "nz"], 0.5)
+    maybe("num.limit", ["expE", "expe", "plus", "tz", "nz"], 0.5)
     maybe("attr.kind", ["native"])
     maybe("defaults", ["omit"], 0.4)
     maybe("omit_full", [True])
@@ -135,6 +135,8 @@ def render(desc, lex=None, encoding="utf-8"):
                 s["values"] = {str(k): v for k, v in sg["values"].items()}
             if sg["receivers"] or not omit:
                 s["receivers"] = list(sg["receivers"])
+            if "start_value" in sg:
+                s["initial_value"] = num(sg["start_value"], lx["num.limit"])
             if sg["mux"]:
                 if sg["mux"]["role"] == "multiplexer":
                     s["multiplex"] = "Multiplexor"
